@@ -90,7 +90,7 @@ func leakSig(stack string) string {
 }
 
 func checkC19(rep *vk.Report) {
-	rep.Rule = "batches of 40 executions per family, run to completion, then (after every user function, listener and fallback has returned) the process is polled for up to 5s for goroutines that still have a frame of the library; families: Timeout scenarios of C07 (timeouts firing, not firing, racing), cancellation scenarios of C08 (context, deadline, Timeout, async Cancel in functions, delays, waits), hedge scenarios of C09 (winners, losers, blocked attempts), async protocol scenarios of C15, hedges whose parent is cancelled during the hedge delay while a slow function ignores cancellation; HTTP calls of C18 (every context kind, retried 5xx/429, hijacked connections, exhausted retries) through a Transport owned by the batch: after all returned bodies are closed and CloseIdleConnections was called no client connection goroutine may remain, and no context-merger goroutine while the callers' contexts are still alive; gRPC interceptor calls with long-lived metadata contexts. Non-trivial: a batch in which a library goroutine was started (async runner, hedge attempt, timer callback) or a connection was opened; distinct by (family, batch outcome classes)."
+	rep.Rule = "batches of 40 executions per family, run to completion, then (after every user function, listener and fallback has returned) the process is polled for up to 5s for goroutines that still have a frame of the library; families: Timeout scenarios of C07 (timeouts firing, not firing, racing), cancellation scenarios of C08 (context, deadline, Timeout, async Cancel in functions, delays, waits), hedge scenarios of C09 (winners, losers, blocked attempts), async protocol scenarios of C15, hedges whose parent is cancelled during the hedge delay while a slow function ignores cancellation; HTTP calls of C18 (every context kind, retried 5xx/429, hijacked connections, exhausted retries, firing hedges whose attempts all get 5xx so that the policy drops all but the last, retried answers whose body stalls after the first bytes) through a Transport owned by the batch: after all returned bodies are closed and CloseIdleConnections was called no client connection goroutine may remain, and no context-merger goroutine while the callers' contexts are still alive; gRPC interceptor calls with long-lived metadata contexts. Non-trivial: a batch in which a library goroutine was started (async runner, hedge attempt, timer callback) or a connection was opened; distinct by (family, batch outcome classes)."
 	rep.Assumptions = []string{
 		"quiescence is established by the calls having returned plus bracket counters around user code, never by sleeping; the 5s grace only bounds how long a finishing goroutine may take",
 		"timers are only visible through their effects: an un-stopped timer that expires unobserved later cannot be seen by this family of technique",
@@ -194,7 +194,7 @@ func c19Batch(rep *vk.Report, b int, fam string, srv *c18Server) {
 			cs.CancelAt = ""
 			for k := range cs.Steps {
 				cs.Steps[k].RetryAfter = ""
-				if cs.Steps[k].Mode == "delayed" {
+				if cs.Steps[k].Mode == "delayed" || cs.Steps[k].Mode == "stall" {
 					cs.Steps[k].Mode = ""
 				}
 			}
@@ -215,6 +215,20 @@ func c19Batch(rep *vk.Report, b int, fam string, srv *c18Server) {
 				// response retried inside it and then wins
 				cs.Stack = "hedge!>retry"
 				cs.Steps = []srvStep{{Status: 200, Mode: "delayed", Size: 10}, {Status: vk.Pick(r, 503, 429, 500), Size: vk.Pick(r, 0, 5000)}, {Status: 200, Size: 10}}
+				cs.BodyKind, cs.BodySize = "nil", 0
+			}
+			switch r.IntN(8) {
+			case 0:
+				// every attempt of a firing hedge gets a 5xx with a body nobody reads; none matches the cancel condition, so the
+				// last to finish is returned and the other responses are dropped by the policy: they must be released too
+				cs.Stack = "hedgec"
+				cs.Steps = []srvStep{{Status: vk.Pick(r, 503, 500), Mode: "delayed", Size: 5000}}
+				cs.BodyKind, cs.BodySize = "nil", 0
+			case 1:
+				// a retried answer whose body stalls after the first bytes: the adapter drops it, which must not depend on the
+				// rest of that body ever arriving
+				cs.Stack = "retry"
+				cs.Steps = []srvStep{{Status: vk.Pick(r, 503, 429), Mode: "stallbody", Size: 20000}, {Status: 200, Size: 10}}
 				cs.BodyKind, cs.BodySize = "nil", 0
 			}
 			id := fmt.Sprintf("l%d-%d-%d", b, i, c18Ids.Add(1))
